@@ -306,7 +306,11 @@ std::string FileSequence::index(size_t idx) const {
 }
 
 std::string FileSequence::frame(Frame frame) const {
-    std::string zframe = internal::zfill(frame, zfill());
+    // Without a frame range there is no frame number in the path
+    std::string zframe;
+    if (m_frameSet.isValid()) {
+        zframe = internal::zfill(frame, zfill());
+    }
 
     std::stringstream ss;
     ss << dirname() << basename() << zframe << ext();
